@@ -80,7 +80,7 @@ class CanStaticSchema: public ICanSchema {
     }
 
   private:
-    std::optional<std::string> GetMsgName(std::uint16_t sid, const std::array<char,4> bus_name) {
+    std::optional<std::string> GetMsgName(std::uint32_t sid, const std::array<char,4> bus_name) {
         std::string bus_name_str(bus_name.data(), strnlen(bus_name.data(), bus_name.size()));
 
         {% for impl in fcp.get_matching_impls("can") %}
@@ -92,7 +92,7 @@ class CanStaticSchema: public ICanSchema {
         return std::nullopt;
     }
 
-    std::optional<std::uint16_t> GetSid(std::string msg_name) {
+    std::optional<std::uint32_t> GetSid(std::string msg_name) {
         {% for impl in fcp.get_matching_impls("can") %}
         if (msg_name == "{{impl.name}}") {
             return {{impl.fields.get('id')}};
